@@ -33,8 +33,14 @@ Crowd == 2000
 \* a worker blocked in the construct waits for a value ("recv-like") or for a receiver ("send-like")
 WaitsFor(f) == IF f \in {"send", "select1-send"} THEN "receiver" ELSE "value"
 
-Family == [form : Forms, holder : Holders, main : Mains, workers : Workers, depth : Depths]
-          \cup [form : Forms, holder : {"func"}, main : {"blocked-recv"}, workers : {Crowd}, depth : {"callee"}]
+\* where the workers' code was defined: "same" in the evaluation that is cancelled; "earlier" by an EARLIER
+\* evaluation of the same interpreter through EvalWithContext with a context that cannot be cancelled
+\* (context.Background()).  The cancellable variants of the channel operations are chosen when the code of a
+\* function is generated: code defined by any ...WithContext call must stop like the rest.
+Libs == {"same", "earlier"}
+Family == [form : Forms, holder : Holders, main : Mains, workers : Workers, depth : Depths, lib : {"same"}]
+          \cup [form : Forms, holder : {"func"}, main : {"blocked-recv"}, workers : {Crowd}, depth : {"callee"}, lib : {"same"}]
+          \cup [form : Forms, holder : {"func", "method"}, main : {"blocked-recv"}, workers : {3}, depth : Depths, lib : {"earlier"}]
 
 VARIABLE prog
 Init == prog \in Family
@@ -44,5 +50,5 @@ Spec == Init /\ [][Next]_prog
 \* every construct is classified, and both classes occur
 Classified == WaitsFor(prog.form) \in {"receiver", "value"}
 Emit == PrintT(<<"BEH", ToJson([form |-> prog.form, holder |-> prog.holder, main |-> prog.main,
-                                workers |-> prog.workers, depth |-> prog.depth, waits |-> WaitsFor(prog.form)])>>)
+                                workers |-> prog.workers, depth |-> prog.depth, lib |-> prog.lib, waits |-> WaitsFor(prog.form)])>>)
 ===============================================================================
